@@ -1,7 +1,7 @@
 INIT Init
 NEXT Next
 CONSTANT Prop = "C05"
-CONSTANT NRandom = 150
+CONSTANT NRandom = 10
 INVARIANT CorrKeysExist
 INVARIANT CorrBusTotal
 INVARIANT CorrFunctional
